@@ -50,6 +50,14 @@ type SortedSet struct {
 	members map[Value]MemberObject
 }
 
+// compareMembers is the order of a sorted set: by score, then by member for equal scores.
+func compareMembers(a, b MemberParam) int {
+	if c := cmp.Compare(a.Score, b.Score); c != 0 {
+		return c
+	}
+	return strings.Compare(string(a.Value), string(b.Value))
+}
+
 func (s *SortedSet) GetMem() int64 {
 	var size int64
 	// map header
@@ -271,9 +279,9 @@ func (set *SortedSet) Pop(count int, policy string) (*SortedSet, error) {
 
 	slices.SortFunc(members, func(a, b MemberParam) int {
 		if strings.EqualFold(policy, "min") {
-			return cmp.Compare(a.Score, b.Score)
+			return compareMembers(a, b)
 		}
-		return cmp.Compare(b.Score, a.Score)
+		return compareMembers(b, a)
 	})
 
 	for i := 0; i < count; i++ {
